@@ -286,7 +286,7 @@ def run(ck, facts, tier):
             ck.violation(R, "placeholder_lifetime:never-fails", b.where(), "lifetime placeholders must be handled by a fresh variable and outlives goals")
     uv = need_body(ck, facts, R, "<chalk_solve::infer::var::InferenceValue as ena::unify::UnifyValue>::unify_values")
     if uv:
-        ms = pair_match(uv.thir, "chalk_solve::infer::var::InferenceValue")
+        ms = pair_match(facts.thir(uv.key), "chalk_solve::infer::var::InferenceValue")
         if len(ms) != 1:
             ck.violation(R, "unify_values:match", uv.where(), "expected one match over (a, b)")
         else:
@@ -311,26 +311,35 @@ def run(ck, facts, tier):
                "only with float types; everything else is Err(NoSolution)")
     b = need_body(ck, facts, R, UNI + "::relate_var_ty")
     if b:
-        ms = [m for m in walk(b.thir) if m.get("k") == "match" and m.get("src", "").startswith("Normal") and "TyVariableKind" in m.get("sty", "")
-              and m["sty"].startswith("(")]
-        if len(ms) != 1:
-            ck.violation(R, "relate_var_ty:match", b.where(), "expected the (var_kind, is_integer, is_float) match")
+        # decided by symbolic evaluation of the whole function (K10): for each (kind of the variable, ty.is_integer(), ty.is_float())
+        # either the function returns Err(NoSolution) before doing anything else, or it goes on - whether the gate is written as a
+        # `match` with an early return, as `matches!` + `if`, or as an if-chain
+        from shared import fixedpoint as fp
+        from kit import params_of_type, user_block
+        kp = sorted(params_of_type(b, "TyVariableKind"))
+        th = user_block(facts.thir(UNI + "::relate_var_ty"))
+
+        def leaf(n_):
+            if n_.get("k") == "adt" and n_.get("v") == "Err":
+                return "err"
+            return "other"
+        n = 0
+        if len(kp) != 1:
+            ck.violation(R, "relate_var_ty:unclassified", b.where(), "cannot find the variable-kind parameter")
         else:
-            m = ms[0]
-            n = 0
             for kind in ("General", "Integer", "Float"):
                 for isint in ("true", "false"):
                     for isfl in ("true", "false"):
                         n += 1
-                        arms = select_arms(m, T(V(kind), ("const", isint), ("const", isfl)))
-                        arm = m["arms"][arms[0][0]]
-                        passes = not is_err(arm["body"])
+                        env = {kp[0]: V(kind), "__calls__": {"is_integer": ("const", isint), "is_float": ("const", isfl)}}
+                        res = fp.ev(th, env, None, leaf)
+                        rejects = bool(res) and all(fp.is_ret(x) and x[1] == "err" for x in res)
                         want = kind == "General" or (kind == "Integer" and isint == "true") or (kind == "Float" and isfl == "true")
                         inst = "relate_var_ty:(%s,int=%s,float=%s)" % (kind, isint, isfl)
-                        if passes == want and arms[0][1] == "yes":
-                            ck.ok(R, inst, "pass" if passes else "Err")
+                        if rejects != want:
+                            ck.ok(R, inst, "pass" if not rejects else "Err")
                         else:
-                            ck.violation(R, inst, b.where(arm["ln"]), "%s, expected %s" % ("passes" if passes else "fails", "pass" if want else "Err"))
+                            ck.violation(R, inst, b.where(), "%s, expected %s" % ("passes" if not rejects else "fails", "pass" if want else "Err"))
             ck.floor(R, "cells", n, 12)
     rt = need_body(ck, facts, R, UNI + "::relate_ty_ty")
     # (the variable/variable cases are decided by C14.VAR-VAR-TABLE, by symbolic evaluation - no source shape assumed)
@@ -339,8 +348,8 @@ def run(ck, facts, tier):
     R = "C14.RIGID"
     ck.rule(R, "K1/K2: in relate_ty_ty two different rigid constructors end in Err(NoSolution); every same-constructor arm relates every "
                "term-carrying component bound on both sides (zip_with / zip_substs over corresponding components)")
-    if rt and len(pair_match(rt.thir, "chalk_ir::TyKind")) == 1:
-        m = pair_match(rt.thir, "chalk_ir::TyKind")[0]
+    if rt and len(pair_match(facts.thir(rt.key), "chalk_ir::TyKind")) == 1:
+        m = pair_match(facts.thir(rt.key), "chalk_ir::TyKind")[0]
         variants = facts.variants("chalk_ir::TyKind")
         flex = {"InferenceVar", "Alias", "Error", "BoundVar"}
         n = 0
@@ -426,7 +435,7 @@ def varvar_table(ck, facts, R, symmetric_only=False):
     rt = need_body(ck, facts, R, UNI + "::relate_ty_ty")
     if not rt:
         return
-    ms = pair_match(rt.thir, "chalk_ir::TyKind")
+    ms = pair_match(facts.thir(rt.key), "chalk_ir::TyKind")
     if len(ms) != 1:
         ck.violation(R, "relate_ty_ty:match", rt.where(), "expected one (TyKind, TyKind) match")
         return
